@@ -464,3 +464,139 @@ impl OutputLog {
         Ok(())
     }
 }
+
+/// Verification hooks (add-only, feature `verif`): drive the reader over an explicit file order
+/// and obtain what `cat` / `export` would print without printing it.
+#[cfg(feature = "verif")]
+#[derive(Debug, Clone, PartialEq, Eq)]
+pub struct VerifInstance {
+    pub instance_id: InstanceId,
+    pub file_idx: usize,
+    pub finished: bool,
+    pub sizes: [u64; 2],
+    pub n_chunks: [usize; 2],
+}
+
+#[cfg(feature = "verif")]
+impl OutputLog {
+    /// `open` over an explicit list of files in the given order (real file names are random and
+    /// the directory order cannot be controlled). As in `open`, files whose header cannot be
+    /// read are skipped; the index is built by the real `create_index`.
+    pub fn verif_from_paths(candidates: Vec<PathBuf>) -> crate::Result<Self> {
+        let mut paths = Vec::new();
+        for path in candidates {
+            let mut file = BufReader::new(File::open(&path)?);
+            if OutputLog::check_header(&mut file).is_err() {
+                continue;
+            }
+            paths.push(path);
+        }
+        let index = Self::create_index(&paths)?;
+        Ok(OutputLog {
+            paths,
+            index,
+            cache: LruCache::new(NonZeroUsize::new(16).unwrap()),
+        })
+    }
+
+    /// Paths that were accepted (after header filtering), in index order.
+    pub fn verif_paths(&self) -> &[PathBuf] {
+        &self.paths
+    }
+
+    /// (job, task) pairs present in the index.
+    pub fn verif_tasks(&self) -> Vec<(JobId, JobTaskId)> {
+        self.index
+            .iter()
+            .flat_map(|(j, tasks)| tasks.keys().map(move |t| (*j, *t)))
+            .collect()
+    }
+
+    /// All instances of a task in index order (the last one is what the readers use).
+    pub fn verif_instances(&self, job_id: JobId, task_id: JobTaskId) -> Vec<VerifInstance> {
+        let conv = |i: &InstanceInfo| VerifInstance {
+            instance_id: i.instance_id,
+            file_idx: i.file_idx,
+            finished: i.finished,
+            sizes: [i.channel_size(0), i.channel_size(1)],
+            n_chunks: [i.channels[0].len(), i.channels[1].len()],
+        };
+        self.index
+            .get(&job_id)
+            .and_then(|j| j.get(&task_id))
+            .map(|t| t.instances.iter().map(conv).collect())
+            .unwrap_or_default()
+    }
+
+    /// Instance ids the reader reports as superseded for a task (`TaskInfo::superseded`).
+    pub fn verif_superseded(&self, job_id: JobId, task_id: JobTaskId) -> Vec<InstanceId> {
+        self.index
+            .get(&job_id)
+            .and_then(|j| j.get(&task_id))
+            .map(|t| t.superseded().map(|i| i.instance_id).collect())
+            .unwrap_or_default()
+    }
+
+    /// The body of `cat` with the output collected instead of printed.
+    pub fn verif_cat(
+        &mut self,
+        job_id: JobId,
+        tasks: &Option<IntArray>,
+        channel: ChannelId,
+        allow_unfinished: bool,
+    ) -> anyhow::Result<Vec<u8>> {
+        let mut out = Vec::new();
+        let mut buffer = Vec::new();
+        let task_infos = Self::_gather_infos(&self.index, job_id, tasks)?;
+        if !allow_unfinished {
+            for (task_id, instance) in &task_infos {
+                if !instance.finished {
+                    anyhow::bail!("Stream for task {} is not finished", task_id);
+                }
+            }
+        }
+        for (_, instance) in &task_infos {
+            for chunk in &instance.channels[channel as usize] {
+                buffer.resize(chunk.size as usize, 0u8);
+                Self::read_buffer(
+                    &mut self.cache,
+                    &self.paths,
+                    instance.file_idx,
+                    chunk.position,
+                    &mut buffer,
+                )?;
+                out.extend_from_slice(&buffer);
+            }
+        }
+        Ok(out)
+    }
+
+    /// The body of `export` with the records collected instead of printed:
+    /// (task, finished, stdout bytes).
+    pub fn verif_export(
+        &mut self,
+        job_id: JobId,
+        tasks: &Option<IntArray>,
+    ) -> anyhow::Result<Vec<(JobTaskId, bool, Vec<u8>)>> {
+        let task_infos = Self::_gather_infos(&self.index, job_id, tasks)?;
+        let mut result = Vec::new();
+        let mut buffer = Vec::new();
+        for (task_id, instance) in &task_infos {
+            buffer.resize(instance.channel_size(0) as usize, 0u8);
+            let mut buf_pos = 0;
+            for chunk in &instance.channels[0] {
+                let size = chunk.size as usize;
+                Self::read_buffer(
+                    &mut self.cache,
+                    &self.paths,
+                    instance.file_idx,
+                    chunk.position,
+                    &mut buffer[buf_pos..buf_pos + size],
+                )?;
+                buf_pos += size;
+            }
+            result.push((*task_id, instance.finished, buffer.clone()));
+        }
+        Ok(result)
+    }
+}
